@@ -5,6 +5,21 @@ import json, os, subprocess
 HERE = os.path.dirname(os.path.dirname(os.path.abspath(__file__)))
 
 # id -> (category, technique, level text, level note, design ref)
+ROUND5 = {
+ "C02": "One drawn stream in twelve carries a frame of 64 KiB..2 MiB with further messages behind it.",
+ "C03": "Two attacks are long runs (3 000 / 30 000) of well-formed commands after the handshake, then a message.",
+ "C04": "predicted_identity: a peer announces a neighbour of an identity the socket generated for an anonymous peer, more anonymous peers join; registrations stay pairwise distinct and the announcing peer stays a peer.",
+ "C05": "One fault-free case in sixteen is a long history (90..210 messages per sender).",
+ "C08": "rejoin_reply: the reply goes to the connection the request came from, also after the requester rejoined under its identity.",
+ "C09": "router_abandoned_send: a routed send under back-pressure is dropped after k polls; the peer stays addressable.",
+ "C10": "The departure phase includes REQ; the bytes of each send on the chosen connection are compared with the exact encoding.",
+ "C12": "In half of the runs every subscriber holds several overlapping subscriptions.",
+ "C14": "l1_takeover: the fair-queue component simulation with the receiving end changing hands; long histories with recv calls abandoned all the way through.",
+ "C16": "Half of the PUB/XPUB cells publish 70 kB messages right after the fault without reading first (the send path has to find the dead subscriber).",
+ "C17": "SUB cells with 180 kB of subscriptions whose replay to a non-reading peer is blocked at close/drop.",
+ "C18": "The operation 'the next accept() fails' (ECONNABORTED, uncategorised, ENOMEM, EINTR) is part of the sequences.",
+ "C20": "A staller may abort (RST) while still in the accept backlog, after which getpeername on the accepted connection fails; a refused connection afterwards is a violation.",
+}
 CLAIMED = {
  "C05": ("exploration", "deterministic simulation with fault injection: seeded search over schedules, read/write segmentations and connection faults; per-connection exactly-once/in-order oracle over wire taps vs recv history",
          "Whole library on a simulated runtime: a receiving socket of each fair-queue type with 1..4 scripted senders; every run draws its own scheduler policy, pipe capacities, chunking, yields, delivery delays, late joins, closes, mid-message cuts and resets. Also real sockets as senders, the fair-queue component simulation, and peers that rejoin under their identity. Oracle at quiescence: recv results attributed by tag equal, in order and frame by frame, the complete messages an independent RFC-23 decoder finds on each connection's tap. One open known finding (identity collision on overlapping rejoin) is listed in known_findings.json with its replay. Sampling, not proof. Messages may end in empty frames; on ROUTER and DEALER the application answers between its recv calls in half of the runs.",
@@ -72,6 +87,8 @@ for p in props:
     pid = p["id"]
     if pid in CLAIMED:
         cat, tech, text, note, ref = CLAIMED[pid]
+        if pid in ROUND5:
+            text = text + " " + ROUND5[pid]
         checks.append({
             "property_id": pid,
             "quick_cmd": f"./check {pid} quick",
